@@ -15,6 +15,8 @@ def parse_impl(res, model):
     if res.get("crash"):
         return ("crash", {"stderr": res.get("stderr", "")})
     code = res.get("code")
+    if code is None:
+        return ("harness", {"detail": str(res)[:600]})
     if code != 200:
         return ("error", {"code": code, "err": res.get("err", "")})
     body = res.get("body", "")
@@ -38,8 +40,16 @@ def strip_header_row(rows, model, text):
     return rows
 
 
+def norm_failed(msg):
+    """errors of the network layer carry addresses and request dumps: the map is compared on the error class"""
+    msg = msg.strip()
+    if msg.startswith("peer is down:"):
+        return "peer is down"
+    return msg
+
+
 def same_failed(a, b):
-    return {k: v.strip() for k, v in a.items()} == {k: v.strip() for k, v in b.items()}
+    return {k: norm_failed(v) for k, v in a.items()} == {k: norm_failed(v) for k, v in b.items()}
 
 
 def stats_close(impl_rows, model_rows, ncols):
